@@ -59,6 +59,10 @@ class Session:
         self.seen_packets_server = []
         self.seen_packets_client = []
 
+        # reference points for ordering TCP sequence numbers modulo 2^32
+        self.server_seq_base = None
+        self.client_seq_base = None
+
         self.can_decrypt = False
         self.client_hello_seen = False
 
@@ -255,6 +259,8 @@ class Session:
                 return
 
             self.seen_packets_server.append(sequence)
+            if self.server_seq_base is None:
+                self.server_seq_base = (sequence - 0x40000000) & 0xFFFFFFFF
 
             self.packet_buffer.append(packet)
 
@@ -263,6 +269,8 @@ class Session:
                 return
 
             self.seen_packets_client.append(sequence)
+            if self.client_seq_base is None:
+                self.client_seq_base = (sequence - 0x40000000) & 0xFFFFFFFF
 
             self.packet_buffer.append(packet)
 
@@ -493,10 +501,10 @@ class Session:
     def extract_server_buf(self):
         """Extracts packets from session which together contain complete TLS_Records"""
         self.server_counter += 1
-        self.server_packet_buffer.sort(key=lambda x: x.seq)
+        self.server_packet_buffer.sort(key=lambda x: (x.seq - self.server_seq_base) & 0xFFFFFFFF)
 
         for i in range(0, len(self.server_packet_buffer) - 1):
-            if self.server_packet_buffer[i].seq + len(self.server_packet_buffer[i].tls_data) != \
+            if (self.server_packet_buffer[i].seq + len(self.server_packet_buffer[i].tls_data)) & 0xFFFFFFFF != \
                     self.server_packet_buffer[i + 1].seq:
                 # need more packets (missing packets)
                 return
@@ -546,10 +554,10 @@ class Session:
     def extract_client_buf(self):
         """Extracts packets from session which together contain complete TLS_Records"""
         self.client_counter += 1
-        self.client_packet_buffer.sort(key=lambda x: x.seq)
+        self.client_packet_buffer.sort(key=lambda x: (x.seq - self.client_seq_base) & 0xFFFFFFFF)
 
         for i in range(0, len(self.client_packet_buffer) - 1):
-            if self.client_packet_buffer[i].seq + len(self.client_packet_buffer[i].tls_data) != \
+            if (self.client_packet_buffer[i].seq + len(self.client_packet_buffer[i].tls_data)) & 0xFFFFFFFF != \
                     self.client_packet_buffer[i + 1].seq:
                 # need more packets (missing packets)
                 return
